@@ -72,10 +72,25 @@ pub fn discard_reason(r: &RefOut) -> Option<&'static str> {
     if let Err(ErrKind::Undefined(w)) = &r.outcome {
         return Some(w);
     }
-    if r.stats.expr_stmts > 60 {
-        return Some("junk_overflow_risk");
-    }
     None
+}
+
+/// signature of a differential failure. Two known findings get their own signature, keyed on
+/// what the reference interpreter saw happen in this very run.
+pub fn failure_sig(prefix: &str, clause: &str, obs: &Obs, r: &RefOut) -> String {
+    if r.tags.contains("junk_above_captured_local") {
+        return format!("{}:junk_above_captured_local", prefix);
+    }
+    // values left on the VM stack by statement-level value cards and array literals exhaust it
+    if obs.outcome == Err("Stackoverflow".to_string()) && r.stats.expr_stmts + r.stats.array_junk > 40 {
+        return format!("{}:leftover_values_exhaust_stack", prefix);
+    }
+    let tags: Vec<String> = r.tags.iter().cloned().collect();
+    if tags.is_empty() {
+        format!("{}:{}", prefix, clause)
+    } else {
+        format!("{}:{}:{}", prefix, clause, tags.join("+"))
+    }
 }
 
 impl Property for C01 {
@@ -133,7 +148,7 @@ impl Property for C01 {
             && (!r.log.is_empty() || r.globals.iter().any(|(n, v)| !n.starts_with("in") && !matches!(v, crate::mval::MV::Nil)));
         let verdict = match compare(&obs, &r) {
             None => Verdict::Pass,
-            Some((clause, detail)) => Verdict::Fail(Failure::new(&clause, &format!("c01:{}{}", clause, sig_tail), detail)),
+            Some((clause, detail)) => Verdict::Fail(Failure::new(&clause, &failure_sig("c01", &clause, &obs, &r), detail)),
         };
         CaseOut { verdict, nontrivial, labels, fingerprint: fp, execs: 1 }
     }
